@@ -201,6 +201,7 @@ pub struct Features {
     pub crlf: bool,
     pub raw_newline_in_string: bool,
     pub escapes: bool,
+    pub multi_a2ml: bool,
 }
 
 #[derive(Debug, Clone)]
@@ -246,6 +247,8 @@ pub struct DocGen<'t> {
     counter: u64,
     budget: i64,
     pub a2ml_variant: Option<crate::a2mlgen::A2mlDef>,
+    /// number of A2ML blocks generated (one per MODULE at most)
+    pub a2ml_count: u32,
 }
 
 pub const VERSIONS: [u32; 6] = [150, 151, 160, 161, 170, 171];
@@ -254,7 +257,7 @@ impl<'t> DocGen<'t> {
     pub fn new(t: &'t mut Tape, opts: GenOpts) -> DocGen<'t> {
         let version = *t.pick(&VERSIONS);
         let budget = opts.budget;
-        DocGen { t, opts, version, feats: Features::default(), counter: 0, budget, a2ml_variant: None }
+        DocGen { t, opts, version, feats: Features::default(), counter: 0, budget, a2ml_variant: None, a2ml_count: 0 }
     }
 
     fn vok(&self, min: Option<u32>, max: Option<u32>) -> bool {
@@ -452,6 +455,10 @@ impl<'t> DocGen<'t> {
             let def = crate::a2mlgen::gen_a2ml(self.t);
             node.body.push(Item::Raw(def.text.clone()));
             self.a2ml_variant = Some(def);
+            self.a2ml_count += 1;
+            if self.a2ml_count >= 2 {
+                self.feats.multi_a2ml = true;
+            }
             self.feats.a2ml = true;
             return node;
         }
@@ -1044,6 +1051,7 @@ pub fn merge_feats(a: &Features, b: &Features) -> Features {
         crlf: a.crlf || b.crlf,
         raw_newline_in_string: a.raw_newline_in_string || b.raw_newline_in_string,
         escapes: a.escapes || b.escapes,
+        multi_a2ml: a.multi_a2ml || b.multi_a2ml,
     }
 }
 
